@@ -1,14 +1,4 @@
-mod enc;
-mod engine;
-mod gen;
-mod http;
-mod iod;
-mod l1;
-mod l2;
-mod scen;
-mod props;
-mod refs;
-mod util;
+use bverif::{engine, props};
 
 use engine::Tier;
 use std::path::PathBuf;
